@@ -278,7 +278,7 @@ def post(agg, sigs):
 
 def main(tier, seed, scale=1.0):
     BIN['san'] = build.ensure('san')
-    n = int((2 * len(TARGETS) if tier == 'quick' else 6000) * scale)
+    n = int((2 * len(TARGETS) if tier == 'quick' else 16000) * scale)
     specs = [(seed, i, tier) for i in range(n)]
     rule = ('one case = one generated disc; even cases sweep the mixed high-bits byte over the %d values a '
             'well-formed disc of <= 1023 sectors can hold (len_hi + start_hi <= 3) with boundary low words, odd '
